@@ -32,6 +32,11 @@ pub fn flag(args: &Args, name: &str) -> bool {
     args.extra.get(name).map(|s| s != "0" && !s.is_empty()).unwrap_or(false)
 }
 
+/// per-kind sample limiter: `static S: AtomicU32`, `take_sample(&S, 2)`
+pub fn take_sample(c: &std::sync::atomic::AtomicU32, max: u32) -> bool {
+    c.fetch_add(1, std::sync::atomic::Ordering::Relaxed) < max
+}
+
 // ---------------------------------------------------------------------------------------------
 // keys
 // ---------------------------------------------------------------------------------------------
@@ -282,7 +287,7 @@ pub type LocalFut<'a, T> = Pin<Box<dyn Future<Output = T> + Send + 'a>>;
 
 /// Poll `a` and `b` alternately (each only when its waker fired) until both are done or neither
 /// was woken (stalled: waiting for bytes that will never come). Returns what completed.
-pub fn drive2<A, B>(mut a: LocalFut<'_, A>, mut b: LocalFut<'_, B>, max_polls: usize) -> (Option<A>, Option<B>, bool) {
+pub fn drive2<A: Send + 'static, B: Send + 'static>(mut a: LocalFut<'static, A>, mut b: LocalFut<'static, B>, max_polls: usize) -> (Option<A>, Option<B>, bool) {
     let (fa, wa) = flag_waker();
     let (fb, wb) = flag_waker();
     let mut ra = None;
